@@ -43,6 +43,7 @@ type ContCase struct {
 	Workers          int
 	Limit            uint32 // collision limit (0 = leave default)
 	SetLimit         bool
+	BatchStart       int  // > 0: the root starts as a container built by the batch constructor from that many generated scalars
 	DrainedIsOneSlab bool // C09: after DrainAtEnd the container must occupy exactly one slab and nothing else may remain
 	DrainAtEnd       bool // after the phases: remove every element one by one (no bulk pop), then regrow a little
 	Temp             bool // root at the temporary address
@@ -104,7 +105,9 @@ func runContainerCase(c *CaseCtx, cc *ContCase) (*CaseResult, *World, *Node) {
 			panic(r)
 		}
 	}()
-	if cc.Kind == "array" {
+	if cc.BatchStart > 0 && !cc.Temp {
+		root, err = w.batchRoot(cc.Kind, addr, cc.BatchStart, cc.Dig)
+	} else if cc.Kind == "array" {
 		root, err = w.NewRootArray(addr, w.newTI(false))
 	} else {
 		root, err = w.NewRootMap(addr, w.newTI(false), cc.Dig)
@@ -220,6 +223,94 @@ func runContainerCase(c *CaseCtx, cc *ContCase) (*CaseResult, *World, *Node) {
 		cc.Final(w, root, res)
 	}
 	return finish(nil)
+}
+
+// batchRoot creates the root of a history with the batch constructor: n generated scalars whose sizes follow the case's
+// profile, the last few biased towards tiny / large so that the builder's close-out (lend, borrow, merge of the last
+// slab at every level) is exercised. The history then continues on that container like on any other.
+func (w *World) batchRoot(kind string, addr atree.Address, n int, dig *DigProfile) (*Node, error) {
+	th := atree.VerifThresholds()
+	w.logOp("root built by the batch constructor from %d elements", n)
+	w.stats.Extra["roots-built-by-batch-constructor"]++
+	ti := w.newTI(false)
+	tail := func(i int, limit uint32) *Node {
+		if i >= n-3 {
+			switch w.rng.Intn(4) {
+			case 0:
+				return &Node{Kind: KU8, U: uint64(i % 200)}
+			case 1:
+				return &Node{Kind: KStr, S: w.strOfByteSize(int(limit) - w.rng.Intn(3))}
+			case 2:
+				return &Node{Kind: KStr, S: w.strOfByteSize(int(limit) * 45 / 100)}
+			}
+		}
+		return w.genScalar(limit)
+	}
+	if kind == "array" {
+		stream := make([]*Node, n)
+		for i := range stream {
+			stream[i] = tail(i, th.MaxInlineArrayElementSize)
+		}
+		i := 0
+		arr, err := atree.NewArrayFromBatchData(w.st, addr, ti, func() (atree.Value, error) {
+			if i == len(stream) {
+				return nil, nil
+			}
+			v := scalarValue(stream[i])
+			i++
+			return v, nil
+		})
+		if err != nil {
+			return nil, viol("bulk-build", "NewArrayFromBatchData(%d elements) failed: %v", n, err)
+		}
+		w.nextNID++
+		return &Node{Kind: KArr, TI: ti, Arr: arr, VID: arr.ValueID(), Addr: addr, nid: w.nextNID, Elems: stream}, nil
+	}
+	// maps are built from a source map (the constructor takes the source's seed and order)
+	saveTrace := w.traceOn
+	w.traceOn = false
+	src, err := w.NewRootMap(addr, ti, dig)
+	if err != nil {
+		w.traceOn = saveTrace
+		return nil, err
+	}
+	for i := 0; i < n; i++ {
+		k := w.genKey(src, n*3+10)
+		if err := w.OpMapSet(src, k, tail(i, mapValueLimit(k))); err != nil {
+			w.traceOn = saveTrace
+			return nil, err
+		}
+	}
+	w.traceOn = saveTrace
+	it, err := src.Map.ReadOnlyIterator()
+	if err != nil {
+		return nil, viol("bulk-build", "source iterator: %v", err)
+	}
+	w.nextNID++
+	cp := &Node{Kind: KMap, TI: ti, Addr: addr, M: map[string]*Entry{}, Dig: dig, nid: w.nextNID}
+	bm, err := atree.NewMapFromBatchData(w.st, addr, w.builderFor(cp), ti, w.cb.Compare, w.cb.HashInput, src.Map.Seed(),
+		func() (atree.Value, atree.Value, error) {
+			k, v, err := it.Next()
+			if err != nil || k == nil {
+				return nil, nil, err
+			}
+			return k, v, nil
+		})
+	if err != nil {
+		return nil, viol("bulk-build", "NewMapFromBatchData(%d entries) failed: %v", len(src.M), err)
+	}
+	for ks, e := range src.M {
+		cp.M[ks] = &Entry{Key: cloneModel(e.Key), Val: cloneModel(e.Val), Seq: e.Seq}
+	}
+	cp.seq = src.seq
+	cp.Map = bm
+	cp.VID = bm.ValueID()
+	id := rootID(src)
+	dropHandles(src, true)
+	if err := w.dispose(atree.SlabIDStorable(id)); err != nil {
+		return nil, err
+	}
+	return cp, nil
 }
 
 // CommitAndCheck commits and, when configured, runs the cold monitors on the registers.
@@ -373,6 +464,9 @@ func basicCase(c *CaseCtx, kind string) *ContCase {
 	}
 	cc.Relaxed = r.Intn(3) == 0
 	cc.DrainAtEnd = c.Case%3 == 0
+	if c.Case%7 == 6 {
+		cc.BatchStart = []int{2, 3, 4, 5, 7, 12, 40, 150}[r.Intn(8)]
+	}
 	return cc
 }
 
